@@ -381,6 +381,7 @@ type obs struct {
 	height int64
 	hash   felt.Felt
 	n      uint64
+	hdr    *core.Header // stored header of the new head, read inside the commit callback
 }
 
 type violation struct {
@@ -773,10 +774,10 @@ func (w *world) monitor() {
 				w.stats["stores"]++
 				w.moved += "S"
 				name := w.nameOf(&o.hash)
-				hdr, err := w.bc.BlockHeaderByNumber(uint64(o.height))
+				hdr := o.hdr
 				switch {
-				case err != nil:
-					w.infra = "BlockHeaderByNumber after store: " + err.Error()
+				case hdr == nil:
+					w.infra = "no stored header captured for a head-advancing commit"
 				case name == "":
 					w.violate("stored-block-not-a-valid-block trigger="+w.last.kindLabel(), map[string]any{"height": o.height, "hash": o.hash.String()})
 				default:
@@ -1039,8 +1040,14 @@ func replay(t *testing.T, c *config, path []evt, converge bool) (res result) {
 				w.stats["commits_not_moving_head"]++
 				return
 			}
+			o := obs{kind: 'c', height: h, hash: hash}
+			if h > cbHeight && h >= 0 {
+				if o.hdr, _ = core.GetBlockHeaderByNumber(w.fdb.Inner(), uint64(h)); o.hdr == nil {
+					w.infra = "stored header unreadable in the commit callback"
+				}
+			}
 			cbHeight, cbHash = h, hash
-			w.log = append(w.log, obs{kind: 'c', height: h, hash: hash})
+			w.log = append(w.log, o)
 		})
 		w.syn = jsync.New(w.bc, w.src, log.NewNopZapLogger(), 0, false, w.fdb)
 		w.syn.WithListener(&jsync.SelectiveListener{
